@@ -180,13 +180,6 @@ Ltac unfold_consts :=
   unfold LABEL_OPTIONAL, LABEL_REQUIRED, LABEL_REPEATED, CARD_OPTIONAL, CARD_REQUIRED, CARD_REPEATED,
          TYPE_STRING, TYPE_GROUP, TYPE_MESSAGE, TYPE_BYTES, TYPE_ENUM in *.
 
-(* facts about a well-formed field, in a form lia can use *)
-Ltac field_setup f H :=
-  let Hs := fresh "Hs" in let Hw := fresh "Hw" in let Hl := fresh "Hl" in
-  let Hm := fresh "Hm" in let Hr := fresh "Hr" in let Hp := fresh "Hp" in
-  destruct (wf_field_parts f H) as (Hs & Hw & Hl & Hm & Hr & Hpm & Hp);
-  pose proof (rt_field_flags_resolved f H) as Hfl; cbv zeta in Hfl.
-
 (* ---- proof automation: split on the label, then on the few type numbers that matter, then treat the
    remaining comparisons (on resolved feature values) as opaque booleans and split on those ---- *)
 Ltac finish := cbn [andb orb negb] in *; try reflexivity; try discriminate; try congruence.
